@@ -9,7 +9,7 @@ per call site / return site; does not decide the equivalence
 import ast
 
 from ..astutil import (
-    body_raises, call_simple_name, conjuncts, dotted, exc_name, guard_chain, names_in, returns_of, short,
+    body_raises, call_simple_name, conjuncts, const_str, dotted, exc_name, guard_chain, names_in, returns_of, short,
 )
 from ..callgraph import CHA, EXACT, get_callgraph
 from ..cfg import ReachingDefs, cfg_of, own_exprs
@@ -579,6 +579,45 @@ def rule_privileged_keys(ctx):
     run.floor(R, 10)
 
 
+EXT_TYPES = ("new-sdo", "new-sco", "new-sro", "property-extension", "toplevel-property-extension")
+
+
+def _eval_with(expr, is_hole, value):
+    """evaluate a small boolean expression with one sub-expression (the hole) replaced by a constant"""
+    def ev(e):
+        if is_hole(e):
+            return value
+        if isinstance(e, ast.Constant):
+            return e.value
+        if isinstance(e, (ast.Tuple, ast.List, ast.Set)):
+            return [ev(x) for x in e.elts]
+        if isinstance(e, ast.UnaryOp) and isinstance(e.op, ast.Not):
+            return not ev(e.operand)
+        if isinstance(e, ast.BoolOp):
+            vals = [ev(x) for x in e.values]
+            return all(vals) if isinstance(e.op, ast.And) else any(vals)
+        if isinstance(e, ast.Compare) and len(e.ops) == 1:
+            a, b = ev(e.left), ev(e.comparators[0])
+            op = e.ops[0]
+            if isinstance(op, ast.In):
+                return a in b
+            if isinstance(op, ast.NotIn):
+                return a not in b
+            if isinstance(op, ast.Eq):
+                return a == b
+            if isinstance(op, ast.NotEq):
+                return a != b
+        if isinstance(e, ast.Call) and isinstance(e.func, ast.Attribute) and e.func.attr in ("endswith", "startswith", "lower", "strip") \
+                and not e.keywords:
+            base = ev(e.func.value)
+            args = [ev(a) for a in e.args]
+            if isinstance(base, str):
+                args = [tuple(a) if isinstance(a, list) else a for a in args]
+                return getattr(base, e.func.attr)(*args)
+        raise AnalysisError("cannot decide the escape-hatch test statically: %s" % norm(e))
+    return bool(ev(expr))
+
+
 def rule_raw_passthrough(ctx):
     run = ctx.run
     prog = ctx.prog
@@ -607,8 +646,26 @@ def rule_raw_passthrough(ctx):
             if under_switch:
                 run.ok(R, c)
             elif ext_branch:
-                run.ok(R, c, "documented exception: STIX 2.1 section 7.3 new-object extension (extension-definition--, not a "
-                       "property extension) is specification-conformant content")
+                # decide the hatch predicate for each of the five extension types of STIX 2.1 section 7.3: it may open
+                # only for the three that define a new object type
+                tests = [x for t, pol, _ in gc if pol for x in conjuncts(t) if "extension_type" in norm(x)]
+                if len(tests) != 1:
+                    raise AnalysisError("%s: the extension_type test of the new-object escape hatch was not found" % fid)
+                table = {}
+                for et in EXT_TYPES:
+                    table[et] = _eval_with(tests[0], lambda e: isinstance(e, ast.Call) and isinstance(e.func, ast.Attribute)
+                                           and e.func.attr == "get" and e.args and const_str(e.args[0]) == "extension_type"
+                                           or (isinstance(e, ast.Subscript) and const_str(e.slice) == "extension_type"), et)
+                want = {et: et.startswith("new-") for et in EXT_TYPES}
+                if table == want:
+                    run.ok(R, c, "documented exception: STIX 2.1 section 7.3 new-object extension (extension-definition--, not a "
+                           "property extension) is specification-conformant content")
+                else:
+                    wrong = sorted(et for et in EXT_TYPES if table[et] != want[et])
+                    run.violation(R, c, "the escape hatch that lets an unregistered type through a strict parse (its extension "
+                                  "defines the new object type) also opens / no longer opens for extension_type %s: an unknown "
+                                  "type with arbitrary properties passes allow_custom=False" % wrong, file=rel, line=r.lineno,
+                                  function=fi.qualname, expected=want, found=table)
             else:
                 run.violation(R, c, "unparsed input is handed back without allow_custom: unknown types pass a strict parse",
                               file=rel, line=r.lineno, function=fi.qualname, expected="`if allow_custom: return <input>`",
